@@ -446,6 +446,22 @@ def jobs_C07(rng, tier):
         fam, pos = gen.gen_stream(rng, 4 * n + 8, n, positive=True, families=fams)
         js.append(Relation("range", mk("drawdown", ECHO, []), [pos], dict(lo=F(0), hi=F(1), strict_hi=True, nondecreasing=True)))
         js.append(Relation("range", mk("cog", ECHO, [n]), [pos], dict(lo=-F(n - 1, 2), hi=F(n - 1, 2))))
+    # the bounds are claimed of every reported value, so also of the same views chained over an inner view (wave-4 seed C07d:
+    # Vsct fed its own window the inner view's outputs but normalised the RAW input) — exact arithmetic
+    chain_inners = lambda: rng.choice([mk("sma", ECHO, [rng.randint(2, 5)]), mk("ema", ECHO, [rng.randint(2, 4)]), mk("cum", ECHO, [rng.randint(2, 4)]),
+                                       mk("max", ECHO, [rng.randint(2, 4)]), mk("rsi", ECHO, [rng.randint(2, 4)]), mk("hln", ECHO, [rng.randint(2, 5)]),
+                                       ("sub", ECHO, mk("sma", ECHO, [3]))])
+    for nm, lo, hi, extra in spec + [("vsct", None, None, {})]:
+        for _ in range(max(2, R // 2)):
+            n = rng.randint(2, 9)
+            e = mk(nm, chain_inners(), gen.gen_params(rng, nm, 9, n=n))
+            fam, xs = gen.gen_stream(rng, 4 * n + 12, n, families=["ints", "dyadic8", "ties", "rampup", "spike", "sawtooth", "zeros", "big_small"])
+            if nm == "vsct":
+                b = F((n - 1) / math.sqrt(n)) + F(1, 10 ** 9)
+                lo_, hi_ = -b, b
+            else:
+                lo_, hi_ = (None if lo is None else F(lo)), (None if hi is None else F(hi))
+            js.append(Relation("range", e, [xs], dict(lo=lo_, hi=hi_, fam=fam, **extra)))
     # the same bounds on the f64 code itself (measurement): few-ulp slack, non-degenerate families
     nf = ["ints", "dyadic8", "ties", "rampup", "rampdown", "spike", "affine", "sawtooth", "dyadic1024", "flat_after_volatile", "fav_long",
           "decimal", "const_decimal", "fav_decimal"]
@@ -493,6 +509,11 @@ def jobs_C08(rng, tier):
             if nm == "roc":
                 xs32 = [x if x != 0 else F(1, 2) for x in xs32]
             js.append(Relation("ready", e, [xs32], dict(ps), mode="s"))
+            # negative zeros (wave-5 seed C08e: BinaryEntropy counted an arriving -0.0 with `>= 0` and un-counted it with
+            # `is_sign_positive()`): the f64 run on a zero-heavy stream in which some zeros carry a minus sign
+            if nm != "roc" and not gen.needs_positive(e):
+                zs = [(-0.0 if (x == 0 and rng.random() < 0.6) else x) for x in gen.stream(rng, rng.choice(["zeros", "zeros", "ties"]), 3 * n + 10, n)]
+                js.append(Relation("ready", e, [zs], dict(ps), mode="f"))
     for _ in range(R * 2):
         js.append(Relation("ready", ("tanh", ECHO), [gen.gen_stream(rng, 8)[1]], dict(first=1)))
         n = rng.randint(3, 6)
@@ -1323,8 +1344,54 @@ def source_audit():
     return bad, n_last
 
 
+class Bracket(Job):
+    """"Two views built with the same parameters and fed the same inputs report bit-identical outputs" — also when other views
+    have lived in the same thread in between.  One process runs, in this order: the view at f64; the same view at f32; a view
+    of the same kind with a different window at f64; the view at f32 again; the view at f64 again.  The first and the last run
+    must agree bit for bit (wave-5 seed C17e: a `thread_local!` one-entry coefficient cache keyed by the window length only,
+    shared by the f32 and f64 instances).  Nothing of the kind exists in the unchanged crate, so any difference is a failure."""
+    kind = "bracket"
+
+    def __init__(self, e, e2, xs):
+        self.e, self.e2, self.xs = e, e2, xs
+
+    def impl_cases(self):
+        f = lambda m, e: Case(m, gen.render(e, m), xs_ops(m, self.xs))
+        return [f("f", self.e), f("s", self.e), f("f", self.e2), f("s", self.e), f("f", self.e)]
+
+    def decide(self, impl, rel, model):
+        a, b = impl[0], impl[4]
+        for t, (u, v) in enumerate(zip(a, b)):
+            if u != v:
+                return dict(explanation="step %d: the same view on the same inputs reports %s the first time and %s after views of another scalar type / "
+                                        "another window length have run in the same thread" % (t + 1, u, v), expected=u, actual=v)
+        if impl[1] != impl[3]:
+            return dict(explanation="the f32 instance reports different outputs on its second run", expected=impl[1][:3], actual=impl[3][:3])
+        return None
+
+    def nontrivial_key(self, impl):
+        return _nontriv((gen.render(self.e, "q"), tuple(self.xs)), outputs("f", impl[0]), gen.window_of(self.e))
+
+    def to_json(self):
+        return dict(kind=self.kind, e=jexpr(self.e), e2=jexpr(self.e2), xs=jvals(self.xs))
+
+    @staticmethod
+    def from_json(d):
+        return Bracket(uexpr(d["e"]), uexpr(d["e2"]), uvals(d["xs"]))
+
+
+JOB_KINDS["bracket"] = Bracket
+
+
 def jobs_C17(rng, tier):
     js = []
+    for nm in gen.UNARY:
+        for _ in range(scale_n(tier, 2, 10)):
+            ps = gen.gen_params(rng, nm, 9)
+            e = mk(nm, ECHO, ps)
+            ps2 = [(p + rng.randint(1, 5)) if isinstance(p, int) and not isinstance(p, bool) else p for p in ps]
+            pos = gen.needs_positive(e)
+            js.append(Bracket(e, mk(nm, ECHO, ps2), gen.stream(rng, rng.choice(["dyadic8", "rampup", "sawtooth", "spike"]), 3 * gen.window_of(e) + 12, positive=pos)))
     for _ in range(scale_n(tier, 150, 1500)):
         e = gen.gen_tree(rng, rng.randint(1, 3), False)
         pos = gen.needs_positive(e) or "div" in gen.tree_names(e)
